@@ -32,6 +32,7 @@ def run(ctx):
     ctx.do(SI.rule_tp1)
     ctx.do(R.rule_zs1)
     ctx.do(R.rule_sym1)
+    ctx.do(R.rule_wp1)
     ctx.do(SI.rule_gen_order)
     ctx.do(SI.rule_elt1)
     ctx.do(u1, ENTRIES, min_functions=30)
